@@ -106,7 +106,7 @@ pub fn run(pid: &'static str, thorough: bool) -> i32 {
                 let t0 = std::time::Instant::now();
                 let (orders, steps, members, maxt, v) = hist::explore_long(full, pid, which, thorough);
                 eprintln!("[timing] long histories over {which}: {orders} orders, {steps} registrations, {maxt} entries in {:.1}s", t0.elapsed().as_secs_f64());
-                rep.set(if which == "U1" { "u1_long_histories" } else { "u1_u3_long_histories" }, json!({"orders": orders, "members_registered_per_order": members, "registrations": steps, "entries_in_final_registry": maxt}));
+                rep.set(if which == "U1" { "u1_long_histories" } else { "u1_u3_long_histories" }, json!({"orders": orders, "members_registered_per_order": members, "registrations": steps, "entries_in_final_registry": maxt, "handover_modes_per_order": ["register_type one by one", "register_types all at once", "register_types in batches of 33", "register_types in batches of 7"]}));
                 states += orders;
                 transitions += steps;
                 rep.extend(v);
@@ -176,7 +176,7 @@ pub fn run(pid: &'static str, thorough: bool) -> i32 {
                 transitions += dcalls;
                 rep.extend(dv);
             }
-            rep.set("rule", json!("(a) stateright BFS over registration histories of the static universe U1 (register_type for every member incl. every alias family, register_types pairs, into_portable / map_into_portable of definitions, fields, variants, parameters) to the depth bound, state key = Debug of the real Registry; (a') size-related behaviour: every member of U1 registered in one history, for every rotation of the member list and its reversal, and every member of U1+U3 (built-in constructors nested to depth 2: more than a thousand entries) for 8 (thorough 16) evenly spaced rotations and their reversals, the property's oracle evaluated after every registration; (b) every type graph of the U2 plans x every root sequence with repetition (x every permutation of every root set for C11); each transition runs the real Registry and the property's oracle"));
+            rep.set("rule", json!("(a) stateright BFS over registration histories of the static universe U1 (register_type for every member incl. every alias family, register_types pairs, into_portable / map_into_portable of definitions, fields, variants, parameters) to the depth bound, state key = Debug of the real Registry; (a') size-related behaviour: every member of U1 registered in one history, for every rotation of the member list and its reversal, and every member of U1+U3 (built-in constructors nested to depth 2: more than a thousand entries) for 8 (thorough 16) evenly spaced rotations and their reversals, the property's oracle evaluated after every registration, and the same order handed over through register_types (all at once, in batches of 33 and of 7) with the property's oracle on the result (C11: batched replay byte-identical, equal to the one-by-one registry up to renaming); (b) every type graph of the U2 plans x every root sequence with repetition (x every permutation of every root set for C11); each transition runs the real Registry and the property's oracle"));
         }
     }
     rep.set("states", json!(states));
